@@ -186,6 +186,11 @@ func (t *WeightedMerkleTrie) delete(node Node, prefix, key []byte) (uint64, Node
 		}
 		n.dirty = true
 		switch child := newNode.(type) {
+		case nil:
+			// the child was a short node itself (only in a trie imported from a crafted export) and is gone:
+			// so is this node
+			t.pendingDeleted = append(t.pendingDeleted, n.Hash())
+			return change, nil, nil
 		case *shortNode:
 			//merge the short node
 			newKey := make([]byte, len(n.key)+len(child.key))
